@@ -3,7 +3,7 @@
    implementation with R is decided per observed trace by the extracted R (checks/c02.py); the
    refinement theorem "M = R wherever R does not fault" is not yet proved (stated in DESIGN.md). *)
 From Coq Require Import ZArith List Bool.
-From TP Require Import Model.StCore Model.StTyping Model.StRef Proofs.StProofs Proofs.C02Proofs Proofs.C02Refine.
+From TP Require Import Model.StCore Model.StTyping Model.StRef Proofs.StProofs Proofs.C02Proofs Proofs.C02Refine Proofs.StArrays.
 Import ListNotations.
 Open Scope Z_scope.
 
@@ -84,3 +84,37 @@ Print Assumptions interpreter_refines_reference.
 Print Assumptions code_refines_reference.
 Print Assumptions integer_expressions_agree.
 Print Assumptions boolean_expressions_agree.
+
+(* ---- arrays: interpreter_refines_reference covers programs with element reads (EIdx) and element writes (SAssignIdx) -
+   no side condition excludes them; the laws of R for indexing and the agreement specialised to the two accesses ---- *)
+(* R checks the index against the declared bounds before it reads the element (IndexOutOfBounds outside lo .. lo+n-1) *)
+Theorem ref_index_checked : forall s k b lo n ki i z, reval s ki i = Ok z ->
+  reval s k (EIdx b lo n ki i) =
+  (if (z <? lo) || (lo + Z.of_nat n - 1 <? z) then Fault FIndexOOB
+   else v <- rd s (b + Z.to_nat (z - lo))%nat ;; match v with VInt _ z' => Ok z' | VBool _ => Fault FTypeMismatch end).
+Proof. exact StArrays.ref_index_checked. Qed.
+Theorem array_read_refines : forall o, o_neg_checked o = true -> forall G s, store_ok G s = true -> forall k b lo n ki i,
+  tint true G k (EIdx b lo n ki i) = true ->
+  eval o s (EIdx b lo n ki i) = bind (reval s k (EIdx b lo n ki i)) (fun z => Ok (VInt k z)).
+Proof. exact StArrays.array_read_refines. Qed.
+Theorem array_write_refines : forall o, o_neg_checked o = true -> o_for_checked o = true -> o_case_unsigned o = true ->
+  forall G fuel depth s b lo n ki i e il, store_ok G s = true -> tstmt true G il (SAssignIdx b lo n ki i e) = true ->
+  exec_with o_ref (ev_ref G) fuel depth s (SAssignIdx b lo n ki i e) = exec o fuel depth s (SAssignIdx b lo n ki i e).
+Proof. exact StArrays.array_write_refines. Qed.
+Example array_refines_nonvacuous :
+  let G := [TInt KInt; TInt KInt; TInt KInt; TInt KInt; TInt KInt] in
+  let s := [VInt KInt 2; VInt KInt 10; VInt KInt 20; VInt KInt 30; VInt KInt 0] in
+  let a := EIdx 1 (-1) 3 KInt in
+  let lit := fun z => ELit false (VInt KInt z) in
+  let body := [SAssignIdx 1 (-1) 3 KInt (lit 0) (lit 42); SAssign 4 (EBin BAdd (a (lit (-1))) (a (lit 1)))] in
+  let body_oob := body ++ [SAssign 4 (a (EVar 0))] in
+  store_ok G s = true /\ tprogram true G body = true /\ tprogram true G body_oob = true /\
+  run_ref G 10 s body = Ok [VInt KInt 2; VInt KInt 10; VInt KInt 42; VInt KInt 30; VInt KInt 40] /\
+  run_program o_code 10 s body = Ok [VInt KInt 2; VInt KInt 10; VInt KInt 42; VInt KInt 30; VInt KInt 40] /\
+  run_ref G 10 s body_oob = Fault FIndexOOB /\ run_program o_code 10 s body_oob = Fault FIndexOOB.
+Proof. exact StArrays.array_refines_nonvacuous. Qed.
+
+Print Assumptions ref_index_checked.
+Print Assumptions array_read_refines.
+Print Assumptions array_write_refines.
+Print Assumptions array_refines_nonvacuous.
